@@ -90,9 +90,9 @@ func SignCOSE(ch *pki.Chain, prot []envcodec.KV, payload []byte, signAlg *envcod
 // unsupported keys: the nearest shape).
 func NaturalAlg(kind string) *envcodec.AlgInfo {
 	switch kind {
-	case "rsa1024", "rsa2048":
+	case "rsa1024", "rsa1536", "rsa2048", "rsa2560":
 		return envcodec.AlgByName("PS256")
-	case "rsa3072":
+	case "rsa3072", "rsa3584":
 		return envcodec.AlgByName("PS384")
 	case "rsa4096":
 		return envcodec.AlgByName("PS512")
